@@ -297,6 +297,25 @@ def parent_checks(tier, seed):
         configs = [(hs, pr, dr) for hs in ("0", "1", "4242", "random") for pr, dr in
                    ((0, ["plain"]), (1000, ["pause", 7]), (300, ["bounded", 4]))]
     items = cross_process(cases, configs)
+    # wall-clock speed of the model's own code: a pause requested while an event takes longer than stop() waits
+    slow_runs = 0
+    for c in cases:
+        if slow_runs >= (2 if tier == "quick" else 6):
+            break
+        plain = common.run_program(c, ["plain"])
+        if len(plain["trace"]) < 8:
+            continue
+        slow = common.run_program(c, ["pause-slow", 3])
+        probe = slow.pop("slow_probe", None)
+        if not probe:
+            continue                      # (the run ended before event 3)
+        slow_runs += 1
+        if probe.get("step") == "accepted" or probe.get("state") == "STOPPED":
+            items.append({"kind": "command-accepted-while-run-thread-inside-event", "case": c,
+                          "detail": probe})
+        elif slow != plain:
+            items.append({"kind": "digest-differs-slow-event-during-stop", "case": c,
+                          "detail": _first_diff(plain, slow)})
     # measure what the batch looked like (in-process plain run of each program for the non-trivial rule)
     nontrivial = []
     samples = []
@@ -308,7 +327,8 @@ def parent_checks(tier, seed):
                 samples.append({"case": c if len(json.dumps(c)) < 3000 else "(large program)",
                                 "executed": len(d["trace"]), "deliveries": len(d["deliveries"])})
     return {"violations": items, "evaluations": len(cases) * len(configs), "nontrivial": nontrivial,
-            "labels": {"xproc-programs": len(cases), "xproc-configurations": len(configs)},
+            "labels": {"xproc-programs": len(cases), "xproc-configurations": len(configs),
+                       "slow-event-during-stop": slow_runs},
             "samples": samples,
             "evidence": {"cross_process": {"programs": len(cases), "configurations": [list(c) for c in configs],
                                            "child_runs": len(cases) * len(configs)}}}
